@@ -194,6 +194,135 @@ func runC11(c *core.Ctx, r *core.Reporter) {
 	c11insert(c, r)
 	c11alias(c, r)
 	c11propagate(c, r)
+	c11skip(c, r)
+}
+
+// c11skip: a combination without a daemon of the kind being looked for is skipped, it does not end the walk.
+func c11skip(c *core.Ctx, r *core.Reporter) {
+	const rule = "C11.skip"
+	r.Rule(rule, "in every loop over Method.Combinations that tests a daemon field of the current combination (Wrap, Before, Primary, After) against nil, the nil outcome stays inside the loop and goes on to the next combination: a component flavor that contributes no daemon of that kind must not hide the daemons of the flavors after it", 6)
+	seen := map[string]int{}
+	for _, fn := range c.ModuleFuncs() {
+		if takesTestingT(fn) || fn.Blocks == nil {
+			continue
+		}
+		loops := core.Loops(fn)
+		for _, b := range fn.Blocks {
+			ifi, ok := b.Instrs[len(b.Instrs)-1].(*ssa.If)
+			if !ok {
+				continue
+			}
+			bo, ok := ifi.Cond.(*ssa.BinOp)
+			if !ok || (bo.Op != token.EQL && bo.Op != token.NEQ) {
+				continue
+			}
+			var val ssa.Value
+			isNil := func(v ssa.Value) bool {
+				k, ok := v.(*ssa.Const)
+				return ok && k.Value == nil
+			}
+			switch {
+			case isNil(bo.Y):
+				val = bo.X
+			case isNil(bo.X):
+				val = bo.Y
+			default:
+				continue
+			}
+			u, ok := val.(*ssa.UnOp)
+			if !ok || u.Op != token.MUL {
+				continue
+			}
+			fa, ok := u.X.(*ssa.FieldAddr)
+			if !ok {
+				continue
+			}
+			field := fieldName(fa)
+			if _, known := requiredSchedule[field]; !known || !isFieldOf(fa, core.SlipPath, "Combination", field) {
+				continue
+			}
+			l := core.InnermostLoop(loops, b)
+			if l == nil || !combinationElem(fa.X, l, 0) && !combinationElemPtr(fa.X, l) {
+				continue
+			}
+			nilSucc := b.Succs[0]
+			if bo.Op == token.NEQ {
+				nilSucc = b.Succs[1]
+			}
+			key := fmt.Sprintf("%s|%s", core.SSAName(fn), field)
+			seen[key]++
+			if n := seen[key]; n > 1 {
+				key = fmt.Sprintf("%s#%d", key, n)
+			}
+			r.Decide(l.Blocks[nilSucc], rule, key, c.Pos(bo.Pos()), fmt.Sprintf("a combination without %s goes on to the next one: %v", field, l.Blocks[nilSucc]))
+		}
+		// a daemon taken from the combination at a varying position is invoked from inside the walk
+		for _, b := range fn.Blocks {
+			for _, in := range b.Instrs {
+				call, ok := in.(*ssa.Call)
+				if !ok {
+					continue
+				}
+				name := callMethodName(call)
+				if name != "Call" && name != "BoundCall" {
+					continue
+				}
+				recv := callReceiver(call)
+				u, ok := recv.(*ssa.UnOp)
+				if !ok || u.Op != token.MUL {
+					continue
+				}
+				fa, ok := u.X.(*ssa.FieldAddr)
+				if !ok {
+					continue
+				}
+				field := fieldName(fa)
+				if _, known := requiredSchedule[field]; !known || !isFieldOf(fa, core.SlipPath, "Combination", field) {
+					continue
+				}
+				eu, ok := fa.X.(*ssa.UnOp)
+				if !ok {
+					continue
+				}
+				ia, ok := eu.X.(*ssa.IndexAddr)
+				if !ok {
+					continue
+				}
+				if _, isK := ia.Index.(*ssa.Const); isK {
+					continue
+				}
+				// inside the walk: dominated by the header of a loop (a first-found invocation that returns is
+				// not part of the loop's body proper, but is reached only through its header)
+				inLoop := false
+				for _, l := range loops {
+					if l.Header.Dominates(b) {
+						inLoop = true
+					}
+				}
+				key := fmt.Sprintf("%s|%s invoked in the walk", core.SSAName(fn), field)
+				seen[key]++
+				if n := seen[key]; n > 1 {
+					key = fmt.Sprintf("%s#%d", key, n)
+				}
+				r.Decide(inLoop, rule, key, c.Pos(call.Pos()), fmt.Sprintf("the daemon of the combination at a varying position is invoked inside a loop over the combinations: %v", inLoop))
+			}
+		}
+	}
+}
+
+// combinationElemPtr: v is the current element of a range over a combination list (a *Combination loaded from
+// the list inside the loop).
+func combinationElemPtr(v ssa.Value, l *core.Loop) bool {
+	u, ok := v.(*ssa.UnOp)
+	if !ok || u.Op != token.MUL {
+		return false
+	}
+	ia, ok := u.X.(*ssa.IndexAddr)
+	if !ok {
+		return false
+	}
+	_ = ia
+	return l.Blocks[u.Block()]
 }
 
 // c11propagate: a combination added to a class's own method must reach the classes that inherit from it.
